@@ -65,8 +65,10 @@ class Device:
 class RT:
     """grid of rows; a row is a tuple of blocks; bw = width of one block along the last dimension"""
 
-    def __init__(self, rows, shape, nb, bw, kT=False):
-        self.rows = list(rows)          # flat, row-major over `shape`
+    def __init__(self, rows, shape, nb, bw, kT=False, base=None):
+        # basic indexing gives a VIEW (base = (tensor, row offsets, block indices)): reads and in-place writes go to the base, as in torch
+        self._base = base
+        self._rows = None if base is not None else list(rows)          # flat, row-major over `shape`
         self.lshape = tuple(shape)
         self.nb, self.bw = nb, bw
         self.kT = kT                    # last two dimensions transposed (only as the second argument of bmm)
@@ -75,6 +77,24 @@ class RT:
         for s in self.lshape:
             n *= s
         assert len(self.rows) == n, (len(self.rows), self.lshape)
+
+    @property
+    def rows(self):
+        if self._base is None:
+            return self._rows
+        root, offs, blocks = self._base
+        rr = root.rows
+        return [tuple(rr[o][b] for b in blocks) for o in offs]
+
+    def _put(self, o, b, x):
+        """in-place write of block b of row o (through to the base of a view)"""
+        if self._base is None:
+            row = list(self._rows[o])
+            row[b] = x
+            self._rows[o] = tuple(row)
+        else:
+            root, offs, blocks = self._base
+            root._put(offs[o], blocks[b], x)
 
     # shape ------------------------------------------------------------------------------------------------
     @property
@@ -136,7 +156,7 @@ class RT:
     def __getitem__(self, key):
         assert not self.kT
         offs, shape, blocks = self._resolve(key)
-        return RT([tuple(self.rows[o][b] for b in blocks) for o in offs], shape, len(blocks), self.bw)
+        return RT(None, shape, len(blocks), self.bw, base=(self, offs, blocks))
 
     def __setitem__(self, key, val):
         assert not self.kT
@@ -146,11 +166,9 @@ class RT:
         while len(vshape) > len(shape) and vshape[0] == 1:
             vshape = vshape[1:]
         assert vshape == shape, 'shape mismatch in assignment: %r into %r' % (val.lshape, shape)
-        for o, vr in zip(offs, val.rows):
-            row = list(self.rows[o])
+        for o, vr in zip(offs, list(val.rows)):
             for b, x in zip(blocks, vr):
-                row[b] = x
-            self.rows[o] = tuple(row)
+                self._put(o, b, x)
 
     # data movement ----------------------------------------------------------------------------------------
     def contiguous(self):
@@ -235,7 +253,14 @@ class RT:
     def __add__(self, o):
         return self._zip(o, ADD)
 
-    __iadd__ = __add__
+    def __iadd__(self, o):
+        # torch adds in place: every other reference to this storage (the tensor this one is a view of, a caller's variable) sees it
+        new = self._zip(o, ADD).rows
+        assert len(new) == len(self.rows), 'in-place add changes the shape'
+        for i, r in enumerate(new):
+            for b, x in enumerate(r):
+                self._put(i, b, x)
+        return self
 
     def __mul__(self, o):
         assert isinstance(o, float)
